@@ -6,6 +6,10 @@
 //!  * tx/S1b sequential pairs (E2): two datagrams (udp / raw / ingress-triggered echo reply) one
 //!           after the other, each run to quiescence (state left behind by the first must not
 //!           leak into the second).
+//!  * tx/S1d a socket datagram with fragments still pending (held after 1-2 polls) meets an
+//!           ingress-triggered reply to the peer or to a second pre-resolved neighbour B; on
+//!           Ethernet every frame's link-layer destination must be the hardware address of the
+//!           neighbour owning its IP destination (also checked in every other tx part).
 //!  * tx/S2  back-to-back (E1 BFS): two UDP sockets + raw socket + inbound oversized echo
 //!           requests, interleaved with poll / poll_egress / ingress / device back-pressure.
 //!  * rx     (E2): all permutations (+ one duplicate, + overlapping retransmission, + two
@@ -90,6 +94,8 @@ impl Net {
         if eth {
             // pre-resolve the peer: smoltcp fills the neighbor cache from any ARP packet aimed at us
             net.dev.rx.push_back(arp_reply());
+            // ... and a second neighbour B (10.0.0.3, 02:00:00:00:00:03)
+            net.dev.rx.push_back(arp_reply_from(PEER_B_MAC, PEER_B_IP));
             net.poll();
             if !net.dev.tx.is_empty() {
                 return Err("unexpected output while pre-resolving the neighbor".into());
@@ -148,16 +154,21 @@ impl Net {
     /// queue an ICMP echo request of `icmp_len` bytes (header + data), as inbound fragments that
     /// each fit the MTU (our own fragmenter); returns the echo reply image we expect
     pub fn inject_echo_request(&mut self, remote_id: u16, ident: u16, seq: u16, data: &[u8]) -> Vec<u8> {
+        self.inject_echo_request_from(PEER_IP, PEER_MAC, remote_id, ident, seq, data)
+    }
+    /// the same from an arbitrary neighbour (its IP source and, on Ethernet, its hardware source)
+    pub fn inject_echo_request_from(&mut self, ip: [u8; 4], mac: [u8; 6], remote_id: u16, ident: u16, seq: u16, data: &[u8]) -> Vec<u8> {
         let req = icmp_echo(8, ident, seq, data);
         let piece = (self.ip_mtu - 20) / 8 * 8;
-        if 20 + req.len() <= self.ip_mtu {
-            let mut p = ipv4_header(remote_id, false, 0, PROTO_ICMP, PEER_IP, OUR_IP, req.len(), 64).to_vec();
+        let pkts = if 20 + req.len() <= self.ip_mtu {
+            let mut p = ipv4_header(remote_id, false, 0, PROTO_ICMP, ip, OUR_IP, req.len(), 64).to_vec();
             p.extend_from_slice(&req);
-            self.inject(p);
+            vec![p]
         } else {
-            for f in fragment(remote_id, PROTO_ICMP, PEER_IP, OUR_IP, &req, &even_cuts(req.len(), piece)) {
-                self.inject(f);
-            }
+            fragment(remote_id, PROTO_ICMP, ip, OUR_IP, &req, &even_cuts(req.len(), piece))
+        };
+        for p in pkts {
+            self.dev.rx.push_back(inbound_from(self.eth, mac, p));
         }
         icmp_echo(0, ident, seq, data)
     }
@@ -191,11 +202,12 @@ pub fn run(tier: Tier) -> i32 {
         smoltcp::config::REASSEMBLY_BUFFER_COUNT,
         smoltcp::config::ASSEMBLER_MAX_SEGMENT_COUNT
     ));
-    rep.assumptions.push("MTU values are IP MTUs; on Medium::Ethernet the device MTU is 14 bytes larger and the neighbor is pre-resolved by an unsolicited ARP reply".into());
+    rep.assumptions.push("MTU values are IP MTUs; on Medium::Ethernet the device MTU is 14 bytes larger and two neighbours (peer 10.0.0.2 / 02:..:02 and B 10.0.0.3 / 02:..:03) are pre-resolved by unsolicited ARP replies".into());
     rep.assumptions.push("device checksum capabilities = default (everything computed/verified in software)".into());
     tx::run_s1(&mut rep, tier);
     tx::run_s1b(&mut rep, tier);
     tx::run_s1c(&mut rep, tier);
+    tx::run_s1d(&mut rep, tier);
     bfs::run_s2(&mut rep, tier);
     rx::run_rx(&mut rep, tier);
     rep.cov(
@@ -211,7 +223,7 @@ pub fn replay(art: &Value) -> i32 {
         return bfs::replay(h, art);
     }
     match r["part"].as_str() {
-        Some("s1") | Some("s1b") | Some("s1c") => tx::replay(r),
+        Some("s1d") | Some("s1") | Some("s1b") | Some("s1c") => tx::replay(r),
         Some("rx") => rx::replay(r),
         _ => {
             eprintln!("MACHINERY ERROR: artefact has no known part/harness");
